@@ -402,7 +402,7 @@ func checkNoGlobalWrites(c *Ctx, rule string) {
 		for _, b := range f.Blocks {
 			for _, in := range b.Instrs {
 				ss := p.storeSite(in)
-				if ss == nil {
+				if ss == nil || storeIsLocal(in) {
 					continue
 				}
 				r := ss.Addr.Root()
